@@ -368,6 +368,19 @@ def run(ctx):
                      (len(rt["histories"]), agree, stuck, len(rt["packages"])))
         evaluated += len(rt["histories"])
 
+    if ctx.pid in ("C08", "C16"):
+        # flag -> Config plumbing in main.go: the CLI must produce what the library produces for the
+        # configuration the flags are documented to select
+        cs = stage_cli.run(ctx.tools, ctx.seed, ctx.tier)
+        for o in cs["obs"]:
+            fmt_flag = "-fmt" in o["flags"]
+            if o.get("lib_matches") is False and o["rc"] == 0 and ((ctx.pid == "C16") == fmt_flag):
+                failures.append(dict(case=dict(case=dict(id=o["name"], args=o["args"], pkg="", stub=False, skip=False,
+                                                         resets=False, flags=o["flags"]), text=None, facts={}, src={}),
+                                     fails=[("moq %s . %s does not print what the library generates for the "
+                                             "configuration these flags select" % (" ".join(o["flags"]), " ".join(o["args"])),
+                                             "flag wiring")], families=[]))
+            evaluated += 1
     return finish(ctx, spec, obligations, corr_breaks, failures, known_hits, listed, notes, st, evaluated,
                   len(nontrivial))
 
@@ -385,6 +398,9 @@ def cli_oracle(pid, o, groups):
             if outkey and o["fault"] == "out-is-dir":
                 pass
             fails.append(("moq changed %s (%s -> %s) although -out is %s" % (k, a, b, out), "unexpected change"))
+    if pid in ("C08", "C16") and o.get("lib_matches") is False and o["rc"] == 0:
+        fails.append(("the CLI with flags %s does not produce what the library produces for the configuration these "
+                      "flags select" % o["flags"], "flag wiring"))
     if pid == "C17":
         if o["rc"] != 0:
             if go_on_stdout:
